@@ -389,8 +389,30 @@ def discharge(ctx, s, scope=None):
         n = _const_int(ops[1])
         if c is not None and n is not None and c < n:
             return 'constant index %d below constant length %d' % (c, n)
-        # the counter of `for i in k..len(X)` indexes X, or a collection a dominating guard makes as long as X
+        # the counter of a walk over X (an index loop normalised to its view: zip / skip of collections) indexes X itself, or a
+        # collection a dominating guard makes as long as X
         i0 = _strip(ops[0])
+        if i0.tag == 'index' and _strip(i0[1]).tag != 'range':
+            from bpsa.terms import _view_component, _equal_length
+            view = _strip(i0[1])
+            n0 = _strip(ops[1])
+            target = n0[2][0] if n0.tag == 'call' and n0[1].split('::')[-1] == 'len' and len(n0[2]) == 1 else None
+            if target is not None:
+                if _view_component(view, target)[0]:
+                    return 'the index is the counter of a walk over %s' % canon(target)[:60]
+                comps = []
+                st_ = [view]
+                while st_:
+                    x_ = st_.pop()
+                    if x_.tag == 'zip':
+                        st_ += [x_[1], x_[2]]
+                    elif x_.tag == 'adapt' and x_[1] == 'skip':
+                        st_.append(x_[2])
+                    else:
+                        comps.append(x_)
+                for c_ in comps:
+                    if _equal_length(lambda: ctx.eng.len_equalities(body, bb), c_, target):
+                        return 'the index is the counter of a walk over %s, as long as %s by a dominating guard' % (canon(c_)[:40], canon(target)[:40])
         if i0.tag == 'index' and _strip(i0[1]).tag == 'range':
             hi = canon(_strip(i0[1])[2])
             nlen = canon(ops[1])
